@@ -66,6 +66,22 @@ fn real_main() -> i32 {
             let p = |i: usize| args[i].parse::<u64>().unwrap_or(0);
             framework::worker_main(s.as_ref(), tier, p(4), p(5), p(6).max(1), p(7))
         }
+        "gen-plan" => {
+            // debugging aid: print the plan of one run as an exec-plan document
+            if args.len() < 4 {
+                return usage();
+            }
+            match find(&args[2]) {
+                Some(s) => {
+                    let run = args[3].parse::<u64>().unwrap_or(0);
+                    let tier = Tier::parse(&args.get(4).cloned().unwrap_or_else(|| "quick".into()));
+                    let plan = s.gen(seed_from_env(), run, tier);
+                    println!("{}", serde_json::json!({"property": s.id(), "scenario": s.id(), "plan": plan}));
+                    0
+                }
+                None => 2,
+            }
+        }
         "exec-plan" => {
             let doc: serde_json::Value = match std::fs::read(&args[2]).ok().and_then(|b| serde_json::from_slice(&b).ok()) {
                 Some(d) => d,
